@@ -147,7 +147,7 @@ pub fn c03_meta(tier: Tier) -> Meta {
     let (dense, nmax, cases) = c03_params(tier);
     basic(
         format!(
-            "Well-shaped calls: every n in 0..={dense} x 4 planners x f32/f64 x 2 directions x 4 entry points x chunk counts cycling through 1..8, plus {cases} proptest-drawn structured lengths up to {nmax} (every AVX radix x every row residue mod 4, Rader/Bluestein primes, prime powers, smooth numbers ...) x chunks 1..8, plus EVERY prime with 11-smooth p-1 (AVX2 Rader) and with 23-smooth p-1 (portable Rader) up to 2^17 (quick) / 2^20 (thorough). Every caller-visible buffer (data, output, scratch of EXACTLY the advertised length) lives in its own mmap'ed region flush against a PROT_NONE guard page (end-flush orientation, and start-flush orientation for a second pass), so a one-element over-read or over-write in the optimised build is a SIGSEGV in the worker, which the parent turns into a violation with a shrunk replay; a third pass places every buffer HALF an element off a page boundary (the weakest alignment a safe caller may pass: 4 bytes for Complex<f32>, 8 for Complex<f64>), so an alignment-assuming SIMD load/store faults. \
+            "Well-shaped calls: every n in 0..={dense} x 4 planners x f32/f64 x 2 directions x 4 entry points x chunk counts cycling through 1..8, plus {cases} proptest-drawn structured lengths up to {nmax} (every AVX radix x every row residue mod 4, Rader/Bluestein primes, prime powers, smooth numbers ...) x chunks 1..8, plus EVERY prime with 11-smooth p-1 (AVX2 Rader) and with 23-smooth p-1 (portable Rader) up to 2^19 (quick) / 2^21 (thorough), plus ~100 landmark lengths up to 2^21 / 2^22 (powers of two, 3*2^k, 5*2^k, large prime powers, primes next to powers of two, radix-N lengths with many layers, multi-million semiprimes). Every caller-visible buffer (data, output, scratch of EXACTLY the advertised length) lives in its own mmap'ed region flush against a PROT_NONE guard page (end-flush orientation, and start-flush orientation for a second pass), so a one-element over-read or over-write in the optimised build is a SIGSEGV in the worker, which the parent turns into a violation with a shrunk replay; a third pass places every buffer HALF an element off a page boundary (the weakest alignment a safe caller may pass: 4 bytes for Complex<f32>, 8 for Complex<f64>), so an alignment-assuming SIMD load/store faults. \
              Ill-shaped calls: the C09 shape matrix for n <= 64 and sampled lengths, same guard-paged buffers; must end in a panic, never a fault. \
              The same cases also run on a build with debug assertions and overflow checks, where rustfft's 28 bounds debug_assert!s in its unsafe accessors turn an index error into a panic that is classified as an out-of-bounds witness. \
              Transforms assembled from public constructors are covered by C12 with the same check. Thorough adds libFuzzer targets under AddressSanitizer (see fuzz/). \
@@ -225,7 +225,25 @@ pub fn c03_worker(ctx: &mut Ctx) {
     // complete sparse families at larger bounds: every prime with 11-smooth p-1 (vectorised AVX2 Rader: gather indices
     // computed by vector modular arithmetic) and every prime with 23-smooth p-1 (portable Rader)
     {
-        let bound = ctx.tier.pick(1usize << 17, 1 << 20);
+        // landmark lengths up to 2^21 (quick) / 2^22 (thorough): a guarded call needs no reference, so these are cheap
+        let marks = crate::gen::landmark_lengths(ctx.tier.pick(20u32, 21), true);
+        for (i, &n) in marks.iter().enumerate().rev() {
+            for (pi, planner) in [Planner::Scalar, Planner::Sse, Planner::Avx].iter().enumerate() {
+                if !ctx.mine() {
+                    continue;
+                }
+                if n > 1 << 21 && ctx.tier == Tier::Quick && (i + pi) % 3 != 0 {
+                    continue;
+                }
+                let ty = TYS[(i + pi) % 2];
+                let e = ENTRIES[(i / 2 + pi) % 4];
+                ctx.exec(&Case::new("C03", "guard", *planner, ty, DIRS[i % 2], n).with_entry(e).with_input(InputSpec::fam("uniform", n as u64)).with_p(vec![((i + pi) % 4) as i64, 0]));
+            }
+            if ctx.done() {
+                return;
+            }
+        }
+        let bound = ctx.tier.pick(1usize << 19, 1 << 21);
         let fams = Families::new(bound);
         for (fname, planners) in [("prime_rader_11smooth", [Planner::Avx, Planner::Auto]), ("prime_rader_23smooth", [Planner::Scalar, Planner::Sse])] {
             let list: Vec<usize> = fams.fams.iter().find(|f| f.0 == fname).map(|f| f.1.clone()).unwrap_or_default();
@@ -355,7 +373,7 @@ pub fn c07_meta(tier: Tier) -> Meta {
     basic(
         format!(
             "For every n in 1..={dense} x 4 planners x f32/f64 x 2 directions x the three explicit-scratch entry points (+ process()), with chunk counts k cycling over 2..8 (odd and even) and {cases} proptest-drawn structured lengths up to {nmax} with k in 1..8: \
-             (A) every chunk of the k-chunk call equals the same chunk transformed alone within 2.5*B (not bitwise: the SSE f32 two-chunks-at-a-time butterflies legitimately round differently from the single-chunk path); \
+             the k-chunk call being given scratch of exactly the advertised length or one of the oversized lengths {{2*adv, k*max(adv,n), adv+4n, (k+3)n+k*adv}} (a transform may batch chunks when the scratch has room): (A) every chunk of the k-chunk call equals the same chunk transformed alone within 2.5*B (not bitwise: the SSE f32 two-chunks-at-a-time butterflies legitimately round differently from the single-chunk path); \
              (B) isolation: a second k-chunk call that keeps one chunk and replaces ALL other chunks by NaN / +Inf / -Inf / huge / other finite data must reproduce that chunk's result bit-for-bit and finite (same code path and data, so bitwise equality is sound; any read of a neighbouring chunk shows up as NaN taint). \
              Non-trivial: k >= 2 and n >= 2; distinct = (planner,type,direction,n,entry,k,kept chunk,filler,input)."
         ),
@@ -381,7 +399,7 @@ pub fn c07_worker(ctx: &mut Ctx) {
                                 .with_entry(*entry)
                                 .with_chunks(k)
                                 .with_input(InputSpec::fam(["uniform", "silence_mix", "periodic", "spikes"][(n + ei) % 4], n as u64 * 5 + ei as u64))
-                                .with_p(vec![keep, filler]),
+                                .with_p(vec![keep, filler, [0i64, -2, 0, -3, -1, -4, 17][(n / 2 + ei) % 7]]),
                         );
                         // the same transform obtained from a planner with a minimal history (opposite direction first)
                         if (n + ei) % 3 == 1 && planner != Planner::Auto {
@@ -403,7 +421,7 @@ pub fn c07_worker(ctx: &mut Ctx) {
                                         .with_entry(*entry)
                                         .with_chunks(k2)
                                         .with_input(InputSpec::fam(if (n + k2) % 3 == 0 { "silence_mix" } else { "gaussish" }, n as u64 + 1))
-                                        .with_p(vec![(n % k2) as i64, 1]),
+                                        .with_p(vec![(n % k2) as i64, 1, if k2 > 3 { [-3i64, -2, -4][n % 3] } else { 0 }]),
                                 );
                             }
                         }
@@ -427,7 +445,7 @@ pub fn c07_worker(ctx: &mut Ctx) {
                 .with_entry(ENTRIES[en])
                 .with_chunks(k)
                 .with_input(InputSpec::fam(["wide", "uniform", "silence_mix", "periodic", "uniform", "const"][(seed % 6) as usize], seed))
-                .with_p(vec![keep, filler])
+                .with_p(vec![keep, filler, [0i64, -2, -3, -4, -1, 1][((seed >> 8) % 6) as usize]])
         },
     );
     ctx.run_random("structured-chunks", cases / ctx.nshards as u32, strat);
@@ -446,7 +464,7 @@ pub fn c08_meta(tier: Tier) -> Meta {
     let (dense, nmax, cases) = c08_params(tier);
     basic(
         format!(
-            "For every n in 1..={dense} x 4 planners x f32/f64 x 2 directions x the three explicit-scratch entry points, and {cases} proptest-drawn structured lengths up to {nmax} (incl. nested Bluestein/Rader inside mixed radix such as 2^a*p): a baseline call (scratch of EXACTLY the advertised length, zero-filled scratch and output) must not panic, and a second call with scratch length in {{adv, adv+1, adv+17, 2*adv}}, scratch initial contents in {{zero, NaN, +Inf, -Inf, huge finite, -1.5}} and output initial contents from the same set (chunks 1 or 3) must produce a finite, BIT-IDENTICAL output. Any use of a stale scratch/output value becomes a NaN/Inf taint or a bit difference. \
+            "For every n in 1..={dense} x 4 planners x f32/f64 x 2 directions x the three explicit-scratch entry points, and {cases} proptest-drawn structured lengths up to {nmax} (incl. nested Bluestein/Rader inside mixed radix such as 2^a*p): a baseline call (scratch of EXACTLY the advertised length, zero-filled scratch and output) must not panic, and a second call with scratch length in {{adv, adv+1, adv+17, 2*adv, k*max(adv,n), adv+4n, (k+3)n+k*adv}}, scratch initial contents in {{zero, NaN, +Inf, -Inf, huge finite, -1.5}} and output initial contents from the same set (chunks 1, 3, 5..9) must produce a finite, BIT-IDENTICAL output. Any use of a stale scratch/output value becomes a NaN/Inf taint or a bit difference. \
              Non-trivial: advertised scratch > 0 or a two-buffer entry point; distinct = (planner,type,direction,n,entry,chunks,slack,fills,input)."
         ),
         "dense range: every n with a rotating subset of the (slack, fill, fill) grid; NaN scratch + NaN output with exact length is always included",
@@ -455,7 +473,7 @@ pub fn c08_meta(tier: Tier) -> Meta {
 }
 pub fn c08_worker(ctx: &mut Ctx) {
     let (dense, nmax, cases) = c08_params(ctx.tier);
-    const SLACK: [i64; 4] = [0, 1, 17, -1];
+    const SLACK: [i64; 6] = [0, 1, 17, -1, -2, -3];
     for n in 1..=dense {
         for ty in TYS {
             for dir in DIRS {
@@ -485,8 +503,18 @@ pub fn c08_worker(ctx: &mut Ctx) {
                                     .with_p(vec![SLACK[(n / 3) % 4], 1, 1]),
                             );
                         }
+                        // many chunks with a scratch several chunks long (a transform may batch chunks when the scratch has room)
+                        if (n + ei) % 2 == 0 {
+                            ctx.exec(
+                                &Case::new("C08", "scratch", planner, ty, dir, n)
+                                    .with_entry(*entry)
+                                    .with_chunks([5usize, 7, 6, 9][(n / 2 + ei) % 4])
+                                    .with_input(InputSpec::fam("uniform", n as u64 + 29))
+                                    .with_p(vec![[-3i64, -2, -4][(n / 2) % 3], ((n / 6) % 6) as i64, 1]),
+                            );
+                        }
                         // rotating part of the grid
-                        let slack = SLACK[(n + ei) % 4];
+                        let slack = SLACK[(n + ei) % 6];
                         let sf = ((n / 4 + ei) % 6) as i64;
                         let of = ((n / 24 + 2 * ei + 1) % 6) as i64;
                         ctx.exec(
@@ -506,7 +534,7 @@ pub fn c08_worker(ctx: &mut Ctx) {
     }
     let fams = Families::new(nmax);
     let nf = fams.count();
-    let strat = (0..nf, any::<u64>(), 0..4usize, 0..2usize, 0..2usize, 0..3usize, 0..4usize, 0..6i64, 0..6i64, prop_oneof![Just(1usize), Just(3usize)], any::<u64>()).prop_map(
+    let strat = (0..nf, any::<u64>(), 0..4usize, 0..2usize, 0..2usize, 0..3usize, 0..6usize, 0..6i64, 0..6i64, prop_oneof![Just(1usize), Just(3usize), Just(5usize), Just(8usize)], any::<u64>()).prop_map(
         move |(fam, r, pl, ty, dir, en, sl, sf, of, chunks, seed)| {
             let (n, _) = fams.pick_biased(fam, r);
             Case::new("C08", "scratch", PLANNERS[pl], TYS[ty], DIRS[dir], n)
@@ -574,7 +602,14 @@ pub fn c15_worker(ctx: &mut Ctx) {
                     // the same transform obtained from a planner WITH history (the opposite direction of the same length, and a
                     // multiple, planned first): a read-only well-shaped call and two ill-shaped calls (ragged input, short scratch)
                     if n >= 2 && planner != Planner::Auto {
-                        let hist = |pick_dir: Dir| Source::History { reqs: vec![Req { n, dir: pick_dir.other() }, Req { n: 2 * n, dir: pick_dir }, Req { n, dir: pick_dir }], pick: 2 };
+                        // odd n: just the opposite direction first; even n: a multiple in between as well
+                        let hist = |pick_dir: Dir| {
+                            if n % 2 == 1 {
+                                Source::History { reqs: vec![Req { n, dir: pick_dir.other() }, Req { n, dir: pick_dir }], pick: 1 }
+                            } else {
+                                Source::History { reqs: vec![Req { n, dir: pick_dir.other() }, Req { n: 2 * n, dir: pick_dir }, Req { n, dir: pick_dir }], pick: 2 }
+                            }
+                        };
                         let nn = n as i64;
                         for (d, o, s, ro) in [(nn, nn, 2i64, 1i64), (nn + 1, nn + 1, 2, 0), (2 * nn, 2 * nn, 1, 0), (nn, nn - 1, 2, (n % 2) as i64)] {
                             ctx.exec(
